@@ -607,6 +607,17 @@ impl CompactThetaSketch {
         Ok(entries)
     }
 
+    /// The entries of an image that declares itself ordered must be strictly ascending.
+    fn ensure_ordered(entries: &[u64]) -> Result<(), Error> {
+        if entries.windows(2).all(|w| w[0] < w[1]) {
+            Ok(())
+        } else {
+            Err(Error::deserial(
+                "corrupted: ordered entries are not in ascending order",
+            ))
+        }
+    }
+
     fn deserialize_v1(mut cursor: SketchSlice<'_>, expected_seed: u64) -> Result<Self, Error> {
         let seed_hash = compute_seed_hash(expected_seed);
         cursor.read_u8().map_err(insufficient_data("<unused>"))?;
@@ -635,6 +646,7 @@ impl CompactThetaSketch {
         }
 
         let entries = Self::read_entries(&mut cursor, num_entries, theta)?;
+        Self::ensure_ordered(&entries)?;
 
         Ok(Self {
             entries,
@@ -681,6 +693,7 @@ impl CompactThetaSketch {
                     .read_u32_le()
                     .map_err(insufficient_data("<unused_u32>"))?;
                 let entries = Self::read_entries(&mut cursor, num_entries, MAX_THETA)?;
+                Self::ensure_ordered(&entries)?;
                 Ok(Self {
                     entries,
                     theta: MAX_THETA,
@@ -702,6 +715,7 @@ impl CompactThetaSketch {
                     .map_err(insufficient_data("theta_long"))?;
                 let empty = (num_entries == 0) && (theta == MAX_THETA);
                 let entries = Self::read_entries(&mut cursor, num_entries, theta)?;
+                Self::ensure_ordered(&entries)?;
                 Ok(Self {
                     entries,
                     theta,
@@ -756,6 +770,9 @@ impl CompactThetaSketch {
             entries = Self::read_entries(&mut cursor, num_entries as usize, theta)?;
         }
         let ordered = (flags & serialization::FLAGS_IS_ORDERED) != 0;
+        if ordered {
+            Self::ensure_ordered(&entries)?;
+        }
         Ok(Self {
             entries,
             theta,
@@ -861,6 +878,9 @@ impl CompactThetaSketch {
         }
 
         let ordered = (flags & serialization::FLAGS_IS_ORDERED) != 0;
+        if ordered {
+            Self::ensure_ordered(&entries)?;
+        }
 
         Ok(Self {
             entries,
